@@ -578,4 +578,24 @@ def geometry_redeclared(repo: Repo) -> RuleRun:
 
 geometry_redeclared.rule_id = "C06.GEOMETRY-REDECLARED"
 
-RULES = [sections, side_tables, vertex_ownership, assemble_walk, patch_state, delete_skip, geometry_label, precision, user_state_survives, grading_form, geometry_redeclared]
+def vertex_tolerance(repo: Repo) -> RuleRun:
+    """'vertices are the model's points': two model points further apart than the merge tolerance are never written as one vertex - the coincidence tests are purely absolute. Same rule as C05.TOLERANCE-SIBLINGS."""
+    from ..report import rebrand
+    from . import c05
+
+    return rebrand(c05.tolerance_siblings(repo), PROP, "C06.VERTEX-TOLERANCE")
+
+
+vertex_tolerance.rule_id = "C06.VERTEX-TOLERANCE"
+
+def grade_idempotent(repo: Repo) -> RuleRun:
+    """'hex entries ... with counts': writing the same mesh twice writes the same counts. Same rule as C12.GRADE-IDEMPOTENT."""
+    from ..report import rebrand
+    from . import c12
+
+    return rebrand(c12.grade_idempotent(repo), PROP, "C06.GRADE-IDEMPOTENT")
+
+
+grade_idempotent.rule_id = "C06.GRADE-IDEMPOTENT"
+
+RULES = [sections, side_tables, vertex_ownership, assemble_walk, patch_state, delete_skip, geometry_label, precision, user_state_survives, grading_form, geometry_redeclared, vertex_tolerance, grade_idempotent]
